@@ -48,8 +48,9 @@ Clause(ev, R) ==
             IF R[ev.i].t # (IF ev.op = "parse_zinc" THEN "zinc" ELSE "json") THEN "harness_register_kind"
             ELSE IF ev.op = "parse_zinc" /\ ~TZ!DocEq(ev.out, R[ev.i].abs) THEN "parse_differs_" \o TZ!DiffClause(ev.out, R[ev.i].abs)
             \* JSON: modulo the six-decimal form (which also makes a zero unsigned)
-            ELSE IF ev.op = "parse_json" /\ ~TZ!DocEq(Q6Doc(ev.out), Q6Doc(R[ev.i].abs))
-                 THEN "parse_differs_" \o TZ!DiffClause(Q6Doc(ev.out), Q6Doc(R[ev.i].abs))
+            \* (ev.outq6: the six-decimal form of the parsed doubles, computed exactly by the harness)
+            ELSE IF ev.op = "parse_json" /\ ~TZ!DocEq(ev.outq6, R[ev.i].abs)
+                 THEN "parse_differs_" \o TZ!DiffClause(ev.outq6, R[ev.i].abs)
             ELSE ""
       [] ev.op = "norm" ->      \* N(d) = dump(parse(d)): N(N(d)) = N(d), character for character
             IF ev.t1 # ev.t2 THEN "normalise_not_idempotent" ELSE ""
@@ -57,7 +58,7 @@ Clause(ev, R) ==
 
 After(ev, R) ==
     CASE ev.op = "load_zinc" -> [R EXCEPT ![ev.j] = [t |-> "zinc", abs |-> ZRead(ev.text, FALSE).stk[1].rows]]
-      [] ev.op = "load_json" -> (LET r == JRead(ev.tree, FALSE) IN [R EXCEPT ![ev.j] = [t |-> "json", abs |-> IF r.ok THEN r.grids ELSE <<>>]])
+      [] ev.op = "load_json" -> (LET r == JRead(ev.tree, FALSE) IN [R EXCEPT ![ev.j] = [t |-> "json", abs |-> IF r.ok THEN Q6Doc(r.grids) ELSE <<>>]])
       [] ev.exc # "" -> R
       [] ev.op = "dump_zinc" -> [R EXCEPT ![ev.j] = [t |-> "zinc", abs |-> ev.before]]
       [] ev.op = "dump_json" -> [R EXCEPT ![ev.j] = [t |-> "json", abs |-> ev.q6]]
